@@ -13,7 +13,11 @@ ASSUMPTIONS = ["atomic.Uint64.Add is a single atomic increment (Go memory model)
 
 
 def corpus():
-    return ["iter.seq 18446744073709551615 5", "iter.seq 9223372036854775808 4", "iter.seq 9223372036854775809 4",
+    return ["plan 0 scenario=73,maxdur=10000000000,conc=10,maxit=3,igndrop=0 mode=%s,dist=%s dur=1000000000,rate=%s" % (hx("constant"), hx("none"), hx("5/100ms")),   # C03n: a limit below the concurrency is still the limit
+            "plan 0 scenario=73,maxdur=10000000000,conc=100,maxit=1,igndrop=1 mode=%s dur=1000000000,conc=5" % hx("users"),
+            "cli mode=file fdur=900 conc=10 maxit=3 bodyms=5 fstages=c:700:5/100ms expectlimit=1",       # … also through the command: `run file` with limits.max-iterations below limits.concurrency
+            "cli mode=file fdur=900 conc=6 maxit=2 bodyms=5 fstages=u:700:6 expectlimit=1",
+            "iter.seq 18446744073709551615 5", "iter.seq 9223372036854775808 4", "iter.seq 9223372036854775809 4",
             "run prop=C03 mode=users dur=600 conc=2 maxit=10 failsetupat=3 expectlimit=1",      # C03k: the scenario fails its *setup* handle while iterations run: every id is still an invocation
             "run prop=C03 mode=constant rate=4/100ms dist=none dur=900 conc=3 maxit=12 failsetupat=2 expectlimit=1",
             "iter.seq 3 5", "iter.seq 0 9", "iter.seq 1 1", "iter.seq 7 7", "iter.seq 7 0",
@@ -63,6 +67,9 @@ def compare(rec):
     if rec["case"].startswith("cli "):
         from . import _plan
         return _plan.cli_compare(rec)
+    if rec["case"].startswith("plan "):
+        from . import _plan
+        return _plan.plan_compare(rec)
     if rec["model"] == "-":
         return None
     return None if rec["impl"] == rec["model"] else "model=%s impl=%s" % (rec["model"], rec["impl"])
